@@ -39,3 +39,6 @@ pub(crate) use mapping::{WorkerTaskMapping, create_task_mapping};
 #[cfg(all(feature = "verif", not(test)))]
 #[allow(unused_imports)]
 pub(crate) use solver::SchedulingSolution;
+#[cfg(feature = "verif")]
+#[allow(unused_imports)]
+pub(crate) use taskqueue::{OneOrMoreTaskIds, TaskQueue};
